@@ -571,17 +571,50 @@ def release_thread(key, wait_gone=True):
             gone = False
     if gone and rec.get('cancel'):
         rec['finished'] = True
-    emit('thread.release', key=key, gone=gone, ident=rec['ident'])
+    freed = None
+    if gone:
+        # nobody keeps a thread object that has done its work: once it is
+        # gone the world forgets it (the object is freed, its ident is free
+        # for the next thread)
+        import weakref
+        wr = weakref.ref(rec['thread']) if rec['thread'] is not None else None
+        rec['thread'] = None
+        rec['cancel'] = None
+        if wr is not None:
+            rec['_wr'] = wr
+            freed = wr() is None
+            if not freed and os.environ.get('ZTR_DEBUG_THREADS'):
+                import gc
+                emit('thread.referrers', key=key, refs=[
+                    type(r).__name__ + ':' + repr(r)[:200]
+                    for r in gc.get_referrers(wr())][:6])
+    emit('thread.release', key=key, gone=gone, ident=rec['ident'],
+         freed=freed)
 
 
 def thread_alive_report(ctx, where):
     """Ground truth sampled by the world itself."""
-    frames = sys._current_frames()
+    # (the idents only: the mapping itself contains this very frame, a
+    # local variable holding it is a reference cycle that keeps the frames -
+    # and through them the objects - of all threads of that moment alive)
+    frames = set(sys._current_frames())
     alive = []
     for key, rec in _thread_events.items():
         if rec['ident'] in frames and not rec.get('finished'):
             alive.append(key)
-    emit('thread.alive', test=ctx, where=where, alive=sorted(alive))
+    # (objects of ended threads that something still holds on to)
+    kept = []
+    for key, rec in _thread_events.items():
+        wr = rec.get('_wr')
+        if wr is not None and wr() is not None:
+            kept.append(key)
+            if os.environ.get('ZTR_DEBUG_THREADS'):
+                import gc
+                out = [type(r).__name__ + ':' + repr(r)[:160]
+                       for r in gc.get_referrers(wr())][:6]
+                emit('thread.referrers', key=key, refs=out)
+    emit('thread.alive', test=ctx, where=where, alive=sorted(alive),
+         ended_but_kept=kept)
 
 
 def _world_threads_running():
